@@ -205,7 +205,12 @@ def _case(repo, it, S, spec):
             out.append(("has_valid_stop", f"{desc}: has_valid_stop -> {k}:{v}; last codon is {want_seq[-3:]}", q("has_valid_stop").qual))
     # chromosome windows keep frame: exactly the codons lying fully inside the window
     lo, hi = exons[0][0], exons[-1][1]
-    for ws, we in ((lo + 1, hi), (lo, hi - 1), (lo + 2, hi - 2), (lo + 4, None), (None, hi - 4)):
+    wins = [(lo + 1, hi), (lo, hi - 1), (lo + 2, hi - 2), (lo + 4, None), (None, hi - 4)]
+    # windows inside an intron (no coding base: no codon, also when a codon is split by that intron) and across its edges
+    for (_s0, e0), (s1, _e1) in zip(exons, exons[1:]):
+        if s1 > e0:
+            wins += [(e0, s1), (e0 - 1, s1), (e0, s1 + 1)]
+    for ws, we in wins:
         if ws is not None and we is not None and ws >= we:
             continue
         n += 1
@@ -219,10 +224,10 @@ def _case(repo, it, S, spec):
         if k != "ok":
             if wantw:
                 out.append((wkey + " raises", f"{desc}: scan_chromosome_codon_locations({ws},{we}) raises {v}; codons inside the window: {wantw}", q("scan_chromosome_codon_locations").qual))
-            continue
-        got = [loc_positions(c) for c in v]
-        if got != wantw:
-            out.append((wkey, f"{desc}: scan_chromosome_codon_locations({ws},{we}) = {got}; codons of the reading frame inside the window: {wantw}", q("scan_chromosome_codon_locations").qual))
+        else:
+            got = [loc_positions(c) for c in v]
+            if got != wantw:
+                out.append((wkey, f"{desc}: scan_chromosome_codon_locations({ws},{we}) = {got}; codons of the reading frame inside the window: {wantw}", q("scan_chromosome_codon_locations").qual))
         # the documented flag: a codon cut by a window edge is retained whole
         n += 1
         k, v = run(it, q("scan_chromosome_codon_locations"), [ws, we], {"expand_window_to_partial_codons": True}, mk_cds(it, exons, S[sn], frames, par))
